@@ -1,6 +1,9 @@
 package anytype
 
-import "sync"
+import (
+	"runtime"
+	"sync"
+)
 
 // C15 — async variants equal their sequential counterparts under every schedule.
 
@@ -388,5 +391,54 @@ func H_C15_map_async_passes_elements() {
 	})
 	verifAssert(okL && okO, "MapAsync passes each index/key with the value Get returns (the identical nested container)")
 	verifAssert(rl.Get(0) == any(inner) && rl.Get(1) == any(io) && ro.Get("a") == any(inner) && ro.Get("b") == any(io), "MapAsync returns exactly what Map returns for the same pure function")
+	verifReach("end")
+}
+
+// callbacks that wait for each other (a barrier: every callback signals that it has started and then waits
+// until all have): ForEachAsync runs all calls concurrently, so the call completes, for every number of
+// processors the environment offers
+func H_C15_interdependent_callbacks() {
+	n := nondetIntRange(1, 2)
+	x := nondetInt()
+	l := NewList()
+	o := NewObject()
+	for i := 0; i < n; i++ {
+		l.Add(x)
+		o.Set(string([]byte{byte('a' + i)}), x)
+	}
+	// every GOMAXPROCS setting: below, at and above the number of elements
+	procs := []int{1, 2, 8}[nondetIntRange(0, 2)]
+	old := runtime.GOMAXPROCS(procs)
+	defer runtime.GOMAXPROCS(old)
+	verifBound("GOMAXPROCS_SETTINGS", 3)
+	var barrier sync.WaitGroup
+	barrier.Add(n)
+	calls := 0
+	var mu sync.Mutex
+	verifSchedAll(0)
+	onList := nondetIntRange(0, 1) == 0
+	p := verifCatch(func() {
+		if onList {
+			l.ForEachAsync(func(i int, v any) {
+				barrier.Done()
+				barrier.Wait()
+				mu.Lock()
+				calls++
+				mu.Unlock()
+			})
+		} else {
+			o.ForEachAsync(func(k string, v any) {
+				barrier.Done()
+				barrier.Wait()
+				mu.Lock()
+				calls++
+				mu.Unlock()
+			})
+		}
+	})
+	verifAssert(!p, "ForEachAsync with callbacks that wait for each other completes (all calls run concurrently)")
+	if !p {
+		verifAssert(calls == n, "ForEachAsync calls the function exactly once per element")
+	}
 	verifReach("end")
 }
